@@ -152,6 +152,7 @@ type Env struct {
 	canonQ   bool   // render quantifiers as SMT quantifiers over canonical bound names (for syntactic matching)
 	noShare  bool
 	hybrid   bool
+	specPkg  string // package of the spec function being expanded (type names in its body resolve there)
 	qdepth   int
 }
 
@@ -610,6 +611,22 @@ func (e *Env) call(x *Expr) TV {
 		t := mk(SStr, "(str_drop %s %s)", a.T, n.T)
 		e.fact(mk(SBool, "(= (str_len %s) (- (str_len %s) %s))", t, a.T, n.T))
 		return TV{t, a.Ty}
+	case "hastype", "cast":
+		a := e.Tr(x.Args[0])
+		if a.T.Sort != SIfc || x.Args[1].Kind != EStr {
+			sfail("%s(e, \"Type\") needs an interface value and a type name", x.Name)
+		}
+		pt := e.x.parseSpecTypeIn(x.Args[1].Name, e.specPkg)
+		if pt.ty == nil {
+			sfail("%s: unknown type %s", x.Name, x.Args[1].Name)
+		}
+		if x.Name == "hastype" {
+			return TV{Eq(IfcTag(a.T), e.x.typeTag(pt.ty)), nil}
+		}
+		if _, isPtr := pt.ty.Underlying().(*types.Pointer); !isPtr {
+			sfail("cast: only pointer payloads are supported")
+		}
+		return TV{IfcRef(a.T), pt.ty}
 	case "mapof":
 		m := e.Tr(x.Args[0])
 		return TV{e.mapValue(m), nil}
@@ -708,6 +725,7 @@ func (e *Env) call(x *Expr) TV {
 		}
 		cn := c.with(vars)
 		cn.depth = e.depth + 1
+		cn.specPkg = sf.PkgPath
 		body := cn.Bool(sf.Body)
 		name := "opq_" + sf.Name + "_" + shortHash(e.x.expandDefs(body.S))
 		e.x.b.DeclFun(name, nil, SBool)
@@ -725,6 +743,7 @@ func (e *Env) call(x *Expr) TV {
 	// skolems created inside the expansion are named after the expansion path: two predicates whose
 	// bodies have a quantifier at the same text position must not share a skolem constant
 	n.skTag = fmt.Sprintf("%s_%s%d", e.skTag, sf.Name, x.Pos)
+	n.specPkg = sf.PkgPath
 	r := n.Tr(sf.Body)
 	rt := e.x.parseSpecTypeIn(sf.Ret, sf.PkgPath)
 	if r.T.Sort != rt.sort {
@@ -836,7 +855,7 @@ func (e *Env) quant(x *Expr) TV {
 		}
 		var decls []string
 		for i, q := range x.Vars {
-			pt := e.x.parseSpecType(q.Type, e.fnPos)
+			pt := e.x.parseSpecTypeIn(q.Type, e.specPkg)
 			name := fmt.Sprintf("?q%d_%d", e.qdepth, i)
 			ty := pt.ty
 			if isInteger2(ty) {
@@ -885,7 +904,7 @@ func (e *Env) quant(x *Expr) TV {
 			vars[k] = v
 		}
 		for _, q := range x.Vars {
-			pt := e.x.parseSpecType(q.Type, e.fnPos)
+			pt := e.x.parseSpecTypeIn(q.Type, e.specPkg)
 			name := fmt.Sprintf("sk_%s_%d_%s_%s", e.skTag, x.Pos, q.Name, shortHash(e.instPath))
 			t := e.sink.FreshNamed(name, pt.sort)
 			ty := pt.ty
@@ -909,7 +928,7 @@ func (e *Env) quant(x *Expr) TV {
 	total := 1
 	nested := containsQuant(body, e.x.db)
 	for _, q := range x.Vars {
-		pt := e.x.parseSpecType(q.Type, e.fnPos)
+		pt := e.x.parseSpecTypeIn(q.Type, e.specPkg)
 		u := &quantUse{offsets: map[int]bool{}}
 		scanUse(body, q.Name, u, e.x.db, 0)
 		cs := map[string]bool{}
@@ -922,8 +941,10 @@ func (e *Env) quant(x *Expr) TV {
 			case pt.sort == SInt:
 				want := e.arrayTagsFor(body, q.Name)
 				for r := range e.cands.idx {
-					if len(want) > 0 {
-						if tg := e.cands.tags[r]; len(tg) > 0 {
+					if hasHeapTag(want) {
+						if tg := e.cands.tags[r]; hasHeapTag(tg) {
+							// both the hypothesis' array and the candidate's array are read from known heaps:
+							// keep the candidate only if they can be the same array
 							hit := false
 							for s := range tg {
 								if want[s] {
@@ -1151,6 +1172,7 @@ func conjuncts(e *Expr, env *Env, depth int) []conj {
 						vars[p.Name] = a
 					}
 					n := env.with(vars)
+					n.specPkg = sf.PkgPath
 					out = conjuncts(sf.Body, n, depth+1)
 				}()
 				if out != nil {
@@ -1294,4 +1316,13 @@ func candPriority(c string) int {
 		return 1
 	}
 	return 2
+}
+
+func hasHeapTag(m map[string]bool) bool {
+	for s := range m {
+		if strings.HasPrefix(s, "H_") || strings.HasPrefix(s, "M_") || strings.HasPrefix(s, "Cell_") || strings.HasPrefix(s, "G_") {
+			return true
+		}
+	}
+	return false
 }
